@@ -159,6 +159,7 @@ def build_program(rs):
 
     comp_classes = {}
     order = []
+    marker_pool = {}
     CTX.shared_names = set()
     for c in rs["comps"]:
         n = c["n"]
@@ -205,6 +206,23 @@ def build_program(rs):
 
             ns["setup"] = setup_late
         ns["execute"] = _cb(f"{n}.execute")
+        if c.get("rebind_hooks") and not late and not c.get("sm"):
+            def _hook_tag(self, what, _n=n):
+                name = getattr(getattr(self, "logger", None), "name", None)
+                return f"{name if name in CTX.shared_names else _n}.{what}"
+
+            def class_on_enable(self, _hook_tag=_hook_tag):
+                stale = "on_enable" in self.__dict__
+                CTX.hit(_hook_tag(self, "on_enable") + ("<class-level on_enable called although the instance rebound it>" if stale else ""))
+                self.on_enable = lambda: CTX.hit(_hook_tag(self, "on_enable"))
+                self.on_disable = lambda: CTX.hit(_hook_tag(self, "on_disable"))
+
+            def class_on_disable(self, _hook_tag=_hook_tag):
+                stale = "on_disable" in self.__dict__
+                CTX.hit(_hook_tag(self, "on_disable") + ("<class-level on_disable called although the instance rebound it>" if stale else ""))
+
+            ns["on_enable"] = class_on_enable
+            ns["on_disable"] = class_on_disable
         if c.get("rebind_exec") and not late and not c.get("sm"):
             def _tag_of(self, _t=f"{n}.execute"):
                 name = getattr(getattr(self, "logger", None), "name", None)
@@ -228,7 +246,12 @@ def build_program(rs):
             ns["on_enable"] = en_rebind
             ns["on_disable"] = dis_unbind
         for attr, default in c.get("resets", {}).items():
-            ns[attr] = will_reset_to(NO_TARGET if default == "<NO_TARGET>" else default)
+            if rs.get("share_markers"):
+                # one marker object may be bound under several names (REQUEST = will_reset_to(False);
+                # Intake.running = REQUEST; Shooter.firing = REQUEST)
+                ns[attr] = marker_pool.setdefault(repr(default), will_reset_to(NO_TARGET if default == "<NO_TARGET>" else default))
+            else:
+                ns[attr] = will_reset_to(NO_TARGET if default == "<NO_TARGET>" else default)
             CTX.snap_attrs.append((n, attr))
         for attr, value in c.get("shadow", {}).items():
             ns[attr] = value  # a plain class attribute that hides a marker of the base class
@@ -283,7 +306,7 @@ def build_program(rs):
             ns["first_state"] = magicbot.state(first=True)(first_state)
             bases = (magicbot.StateMachine,)
         if c.get("base_resets"):
-            bns = {a: will_reset_to(d) for a, d in c["base_resets"].items()}
+            bns = {a: (marker_pool.setdefault(repr(d), will_reset_to(d)) if rs.get("share_markers") else will_reset_to(d)) for a, d in c["base_resets"].items()}
             for a in c["base_resets"]:
                 if (n, a) not in CTX.snap_attrs:
                     CTX.snap_attrs.append((n, a))
@@ -667,7 +690,7 @@ def tags(step):
 
 _I = st.integers
 _FB_CODE = st.tuples(_I(0, 7), _I(0, 2), _I(0, 13), st.lists(_I(0, 19), min_size=1, max_size=3))
-_COMP_CODE = st.tuples(_I(0, 15), _I(0, 2), _I(0, 1), _I(0, 1), st.lists(_FB_CODE, max_size=2), _I(0, 4))
+_COMP_CODE = st.tuples(_I(0, 31), _I(0, 2), _I(0, 1), _I(0, 1), st.lists(_FB_CODE, max_size=2), _I(0, 4))
 _ROBOT_CODE = st.tuples(
     st.lists(_COMP_CODE, max_size=4), _I(0, 4), _I(0, 255), st.booleans(), _I(0, 5),
     st.lists(st.booleans(), max_size=2), _I(0, 6), st.lists(_FB_CODE, max_size=2),
@@ -740,6 +763,10 @@ def decode_robot(code):
             # the component swaps its own execute on the instance while enabled (self.execute = self._homing in
             # on_enable(), removed again in on_disable()): "execute() of the component" is whatever the attribute is then
             c["rebind_exec"] = True
+        elif flags & 16 and c["en"] and c["dis"] and not c.get("sm") and not c.get("late_hooks"):
+            # the component replaces its own on_enable / on_disable on the instance the first time it is enabled
+            # (e.g. self.on_disable = self.motor.stop once the motor exists): the hook that counts is the current one
+            c["rebind_hooks"] = True
         c["resets"] = {(f"_r{j}" if (rv + j) % 3 == 0 else f"r{j}"): RESET_VALUES[(rv + j) % 5] for j in range(nres)}  # markers may be private names too
         c["base_resets"] = {f"b{j}": RESET_VALUES[(rv + 2 + j) % 5] for j in range(nbres)}
         if nres == 2 and flags % 4 == 3:
@@ -761,6 +788,8 @@ def decode_robot(code):
         "rfbs": [fb for fb in (decode_fb(x, used) for x in rfbs_c) if fb],
         "modes": [], "sel": None, "inst_cfg": hooks_c % 4 == 1, "wd_timeout": hooks_c % 8 in (2, 6),
     }
+    if hooks_c % 3 == 0:
+        rs["share_markers"] = True
     names = ["A", "B mode"]
     for i, d in enumerate(modes_c):
         rs["modes"].append({"n": names[i], "def": bool(d) and not any(m.get("def") for m in rs["modes"])})
